@@ -170,4 +170,15 @@ theorem preMem_lawful :
       · subst h2; simp [h1, Ne.symm h1, Array.getElem?_eq_getElem hj1, Array.getElem?_eq_getElem hj2]
       · simp [h1, h2, Ne.symm h1, Ne.symm h2]
 
+/-- logging the swaps does not change what the memory holds -/
+theorem tracedMem_lawful {M : Mem σ α} {abs : σ → List (α × Nat)} {ok : σ → Prop} (L : Lawful M abs ok) :
+    Lawful (tracedMem M) (fun s => abs s.1) (fun s => ok s.1) where
+  item := fun s hs i => L.item s.1 hs i
+  code := fun s hs i => L.code s.1 hs i
+  swap := by
+    intro s hs i j hi hj
+    obtain ⟨a, n, chk⟩ := s
+    obtain ⟨a', h1, h2, h3⟩ := L.swap a hs i j hi hj
+    exact ⟨(a', n + 1, (chk * 1000003 + i * 65537 + j + 1) % 2 ^ 64), by simp [tracedMem, h1], h2, h3⟩
+
 end Momo.Sort
